@@ -107,12 +107,12 @@ def model_value2(m, term):
 MAX_BV_WIDTH = 40
 
 
-def prove_equal(build, real_mode='real', lang='fortran', timeout_ms=8000, extra=None, want_gap=False):
+def prove_equal(build, real_mode='real', lang='fortran', timeout_ms=8000, extra=None, want_gap=False, ints_as_reals=False):
     r"""build(sem) -> (t1, t2, env) ; env: name -> z3 term of the free variables (created through sem.int_var /
     sem.real_const / z3.Bool).  Asks: exists valuation. ranges /\ defined /\ t1 != t2.
     Returns dict(verdict, model, seconds, mode, structural)."""
     from vlib.fsmt.sem import Sem, NeedIntMode  # pylint: disable=import-outside-toplevel
-    sem = Sem(real_mode, lang=lang)
+    sem = Sem(real_mode, lang=lang, int_mode='asreal' if ints_as_reals else 'int')
     t1, t2, env = build(sem)
     res = {'mode': 'int', 'structural': False, 'seconds': 0.0, 'model': None}
     if t1.sort() != t2.sort():
@@ -123,7 +123,7 @@ def prove_equal(build, real_mode='real', lang='fortran', timeout_ms=8000, extra=
     if t1.eq(t2) or z3.simplify(t1).eq(z3.simplify(t2)):
         res.update(verdict='unsat', structural=True)
         return res
-    if not sem.used_real and not sem.unbounded and sem.max_mag.bit_length() + 2 <= MAX_BV_WIDTH:
+    if not ints_as_reals and not sem.used_real and not sem.unbounded and sem.max_mag.bit_length() + 2 <= MAX_BV_WIDTH:
         w = max(8, sem.max_mag.bit_length() + 2)
         sem2 = Sem(real_mode, lang=lang, int_mode='bv', width=w)
         try:
